@@ -1385,6 +1385,10 @@ def rule_O5(ctx, rule: str = "O5") -> None:
             sel_seen = True
         if no_group and v == C(False):
             continue
+        if no_group and v[0] == "op" and v[1] == "==" and len(v) == 4 and C(None) in (v[2], v[3]) and any(
+                a.arg == (v[3] if v[2] == C(None) else v[2])[1] and a.annotation is not None and ast.unparse(a.annotation) == "str"
+                for a in fn.args.args if (v[3] if v[2] == C(None) else v[2])[0] == "n"):
+            continue        # `None == field_name` with field_name: str - a field outside any group is never "the selected member"
         if in_group and is_sel and not [t for t in extra if "_group_current" not in t]:
             continue
         bad = (p, atoms, v)
